@@ -727,10 +727,8 @@ static std::string canon_parametric(const ParametricVoxelsOnCartesianGrid& d, Ou
   return c.str();
 }
 
-// Plain parse of an Interfile image header (what every image reader of interfile.cxx does first).  The probe looks at the
-// per-data-set tables BEFORE the library's post_processing() loops over them with get_num_datasets() as bound: if a table is
-// shorter, the library's loop would index it out of bounds (possibly inside the vector's capacity, where the sanitizer cannot
-// see it), so the probe records the inconsistency and rejects instead of calling the base class.
+// Plain parse of an Interfile image header (what every image reader of interfile.cxx does first).  The probe makes an out-of-bounds
+// index into the per-data-set tables visible to the sanitizer (see post_processing below) and checks the tables of an accepted header.
 struct ProbeImageHeader : public InterfileImageHeader
 {
   std::string inconsistency; long longer = 0;
@@ -744,8 +742,12 @@ struct ProbeImageHeader : public InterfileImageHeader
   }
   bool post_processing() override
   {
+    // The library decides: it may reject such a header through its error reporting (fine), or loop over the tables with
+    // get_num_datasets() as bound.  The tables are first shrunk to their size, so that an index beyond the size is also beyond the heap
+    // block and AddressSanitizer reports it (otherwise it could land inside the vector's capacity, unseen); an ACCEPTED header with
+    // short tables is then reported by canon_header().
     inconsistency = tables("when post_processing() starts");
-    if (!inconsistency.empty()) return true;
+    image_scaling_factors.shrink_to_fit(); data_offset_each_dataset.shrink_to_fit();
     return InterfileImageHeader::post_processing();
   }
 };
@@ -882,8 +884,7 @@ static void run_entry(const Seed& S, int entry, const std::string& text, Outcome
           ProbeImageHeader h;
           o.hdr_probe = true;
           const bool ok = h.parse(in);
-          o.hdr_inconsistency = h.inconsistency;
-          if (!ok) { o.cls = REJECTED_NULL; break; }
+          if (!ok) { o.cls = REJECTED_NULL; break; }   // rejected through the library's error reporting, whatever the tables looked like
           o.canon = canon_header(h, o);
           o.cls = ACCEPTED;
           break;
